@@ -163,7 +163,12 @@ def _add_zids(zdir: Path, page: Page) -> None:
             zid = zid_manager.get_next(note.create_date)
             note.zid = zid
             old_body = note.body.lstrip()
-            if zdt.is_long_date_spec(old_body.split(" ")[0]):
+            first_word = old_body.split(" ")[0]
+            # Only drop the note's real create date (see _add_zid_to_line).
+            if (
+                zdt.is_long_date_spec(first_word)
+                and first_word == note.create_date.isoformat()
+            ):
                 old_body = " ".join(old_body.split(" ")[1:])
             note.body = f"{zid} {old_body}"
             new_notes.append(note)
